@@ -27,6 +27,8 @@ def run(cfg, calls, *, n_jobs=1, verbose=False, folder=None, ctor_seed_shift=0, 
     except Exception as e:  # noqa: BLE001
         res["error"] = f"{type(e).__name__}: {str(e)[:200]}"
     res.update(S.history_arrays(cal))
+    # canonical state of the scheduler, its samplers and (RL) its agent: equal runs must also end in equal internal state
+    res["sched_state"] = np.array(repr(S.canon(cal.scheduler)))
     if ret is not None:
         res["ret_p"], res["ret_l"] = np.asarray(ret[0]), np.asarray(ret[1])
     res["cal"] = cal
